@@ -138,7 +138,7 @@ class ClassifierAfterKMeans(BaseEstimator, ClassifierMixin):
         the :epkg:`sklearn:cluster:KMeans`.
 
         :param values: valeurs
-        :return: dict
+        :return: self
         """
         pc, pe = {}, {}
         for k, v in values.items():
@@ -150,6 +150,7 @@ class ClassifierAfterKMeans(BaseEstimator, ClassifierMixin):
                 raise ValueError(f"Unexpected parameter name '{k}'")
         self.clus.set_params(**pc)
         self.estimator.set_params(**pe)
+        return self
 
     def __repr__(self):
         """
